@@ -92,7 +92,7 @@ func init() {
 		RunC07Bytes(c)
 		RunExplore(c, c07, one(monitors.NoCrash{}), baseAssumptions...)
 	}})
-	regExplore("C21", []WorldRun{wrPay}, one(monitors.Checks{}))
+	regExplore("C21", []WorldRun{wrPay}, one(monitors.Committed(monitors.Checks{}, "check/")))
 	regExplore("C26", []WorldRun{wrPayReplay, {World: "pool", Quick: b(2, 2, 1), Thorough: b(2, 2, 2), OneEnv: true, Prepare: addReplayItems}}, one(monitors.ChargedOnce{}))
 	c06 := txWorlds()
 	for i := range c06 {
